@@ -131,7 +131,15 @@ def run(check, repo: Repo) -> None:
             t = unparse(n.test)
             if any(f"{nm}.ndim" in t or f"{nm}.shape !=" in t or f"np.ndim({nm})" in t for nm in seq_names):
                 rank_test = True
-    check.decide(flat or rank_test, "C03-R1", "validate_ndinfo: the sequence arm returns a 1-D array (flattened, or rank-checked) of length ndim", "", vmod.line(vn),
+    # definite when the returned array is positively a bare conversion of the argument (np.array / np.asarray of it, nothing else) and no statement of the
+    # function looks at a rank or shape at all: then a (1, ndim) value provably comes back two-dimensional
+    bare = False
+    for nm in seq_names:
+        ds_ = [d for d in definitions(vn, nm) if isinstance(d, ast.AST) and not any(isinstance(c, ast.Call) and call_name(c) == "np.full" for c in ast.walk(d))]
+        if ds_ and all(isinstance(d, ast.Call) and (call_name(d) or "") in ("np.array", "np.asarray", "np.asanyarray") for d in ds_):
+            bare = True
+    looks_at_rank = any(isinstance(x, ast.Attribute) and x.attr in ("ndim", "shape") for x in ast.walk(vn)) or any(isinstance(x, ast.Call) and (call_name(x) or "") in ("np.ndim", "np.shape", "np.atleast_1d", "np.squeeze") for x in ast.walk(vn))
+    check.decide(flat or rank_test, "C03-R1", "validate_ndinfo: the sequence arm returns a 1-D array (flattened, or rank-checked) of length ndim", "", vmod.line(vn), definite=bare and not looks_at_rank,
                  fail_detail="the returned array is neither flattened nor rank-checked: 2-D input whose first dimension equals ndim (a column vector, a nested list) is stored "
                              "as a calibration with more than one entry per axis")
 
